@@ -28,7 +28,8 @@ struct elem {
     struct cstl_hash_node hn;
 };
 
-static struct cstl_hash tab[NT];
+/* table 1 is initialised by the header's compile-time initializer and never by cstl_hash_init */
+static struct cstl_hash tab[NT] = { [1] = CSTL_HASH_INITIALIZER(struct elem, hn) };
 static struct elem pool[NE + 1];
 
 /* ---- hash functions with a call log ---- */
@@ -276,6 +277,10 @@ static void reset(void)
     h_alloc_reset();
     memset(pool, 0, sizeof(pool));
     for (i = 0; i < NT; i++) {
+        if (i == 1) {
+            continue;       /* table 1: compile-time initializer only (see the definition of tab) */
+        }
+        H_POISON_OBJ(tab[i]);
         cstl_hash_init(&tab[i], offsetof(struct elem, hn));
     }
     nhlog = 0;
